@@ -748,6 +748,7 @@ macro "pres_auto" ih:ident : tactic => `(tactic| repeat (first
   | exact pres_xalloc _ | exact pres_xlval1 _ _ | exact pres_xlval2 _ _ _ | exact pres_xplace _ _ _ _ | exact pres_takeArg _
   | exact pres_wrRecv _ _ | exact pres_recvCell _ _ | exact pres_finishInPlace _ _ _ _ _ | exact pres_atResult _ _ _ _
   | exact $ih _ | exact pres_tabStep ($ih _) _ _ _ | exact pres_tupStep $ih _ _ | exact pres_call $ih _ _
+  | exact pres_biArgs $ih _ _ | exact pres_biHeld _ | exact pres_xgets _ | exact pres_xplaceBi _ _ _
   | apply Pres.bind | apply Pres.ite | split | intro _))
 
 /-- Every expression of the extended language respects the frame discipline (`LemmasX.Frame`), for every function
@@ -776,6 +777,7 @@ theorem evalX_pres (F : List XFun) : ∀ fuel e, Pres (evalX F fuel e)
     | tab n a => simp only [evalX]; pres_auto ih
     | tup args => simp only [evalX]; pres_auto ih
     | call f args => simp only [evalX]; pres_auto ih
+    | bi name args => simp only [evalX]; pres_auto ih
 
 /-- Statements respect the same discipline (assignment logs its target). -/
 theorem execX_pres (F : List XFun) (fuel : Nat) (st : XStmt) : Pres (execX F fuel st) := by
@@ -966,6 +968,7 @@ theorem storage_root (F : List XFun) : ∀ fuel e (i : Nat), e.isStorage = true 
     | tab _ _ => simp [XExpr.isStorage] at hst
     | tup _ => simp [XExpr.isStorage] at hst
     | call _ _ => simp [XExpr.isStorage] at hst
+    | bi _ _ => simp [XExpr.isStorage] at hst
 
 /-- A storage expression never evaluates to (a cell of) a constant node. -/
 theorem storage_not_cst (F : List XFun) : ∀ fuel e, e.isStorage = true →
@@ -1020,6 +1023,7 @@ theorem storage_not_cst (F : List XFun) : ∀ fuel e, e.isStorage = true →
     | tab _ _ => simp [XExpr.isStorage] at hst
     | tup _ => simp [XExpr.isStorage] at hst
     | call _ _ => simp [XExpr.isStorage] at hst
+    | bi _ _ => simp [XExpr.isStorage] at hst
 
 /-- **An in-place member changes a variable cell only through a storage receiver rooted at that variable.**
 `xr` is the cell the receiver expression `r` evaluates to, `x` the cell `MemberExpression::receiver()` hands to
@@ -1216,6 +1220,17 @@ theorem evalX_logs (F : List XFun) : ∀ fuel e, Logs (fpE F fuel e) (evalX F fu
         · intro ρ h
           exact List.mem_flatten.mpr ⟨_, List.mem_map.mpr ⟨a, ha, rfl⟩, h⟩
         · logs_prim
+    | bi name args =>
+      simp only [evalX, fpE]
+      refine Logs.bind' (logs_biArgs ihp _ _ (fun a ha => Logs.mono ?_ (ih a))) (pres_biArgs ihp _ _) (fun xn => ?_)
+      · intro ρ h
+        exact List.mem_flatten.mpr ⟨_, List.mem_map.mpr ⟨a, ha, rfl⟩, h⟩
+      · refine Logs.bind_silent (silent_biHeld _) (pres_biHeld _) (fun _ => ?_)
+        refine Logs.bind_silent (silent_xgets _) (pres_xgets _) (fun vs => ?_)
+        split
+        · logs_prim
+        · refine Logs.bind_silent (silent_lift _) (Pres.lift _) (fun v => ?_)
+          exact Logs.silent (silent_xplaceBi _ _ _)
     | call f args =>
       simp only [evalX, fpE]
       cases hfn : F[f]? with
@@ -1293,6 +1308,63 @@ example :
     fpE [] 6 (.bin .add (.mem .put (.var 1) [.cst 0, .mem .at (.var 0) [.cst 1]])
                         (.mem .count (.mem .concat (.bin .add (.var 2) (.cst 2)) [.cst 3]) [])) = [.var 1] := by
   rfl
+
+/-! ### Built-ins of two and more arguments (`XExpr.bi`, placement table `biPlace`) -/
+
+/-- **Every result-placement combinator a built-in uses writes pool slots only.** For every placement (`thru`, `fresh`,
+LVAL1 on the first argument, LVAL2 on the first two), every result value, every list of argument cells — whatever mix of
+variables, constants, table elements, tuple items and temporaries they are — and every state satisfying the flag
+invariant: the lists of variable slots and of constant nodes afterwards are IDENTICAL to those before (whole cells: the
+value with all its elements / items at every depth, and the flag) and nothing is logged. -/
+theorem reuse_only_temporaries (p : BiPlace) (v : Val) (xs : List XLoc) (s s' : XS) (x : XLoc) (hinv : FlagInvX s)
+    (h : xplaceBi p v xs s = .ok (x, s')) :
+    s'.st.vars = s.st.vars ∧ s'.st.csts = s.st.csts ∧ s'.log = s.log := by
+  unfold xplaceBi at h
+  split at h
+  · cases h; exact ⟨rfl, rfl, rfl⟩
+  · simp only [xalloc] at h; cases h; exact ⟨rfl, rfl, rfl⟩
+  · exact xlval1_same _ _ s s' x hinv h
+  · exact xlval2_same _ _ _ s s' x hinv h
+  · simp only [XM.fail] at h; cases h
+
+/-- non-vacuity: (stored, temporary) — the pattern of seeded change C05-m7 — with LVAL2: the temporary receives the
+result, the variable cell is untouched; and the MERGED combinator of that change (`xlval2Merged`, not in the model)
+overwrites the variable: the theorem above is false for it. -/
+example :
+    let s : XS := { st := { vars := [⟨.int 3, true⟩], csts := [], pool := [⟨.int 4, false⟩], wm := 1 } }
+    FlagInvX s ∧
+    (∃ s', xplaceBi .l2 (.int 9) [⟨.var 0, []⟩, ⟨.tmp 0, []⟩] s = .ok (⟨.tmp 0, []⟩, s') ∧
+       s'.st.vars.map (·.val) = [.int 3] ∧ s'.st.pool.map (·.val) = [.int 9]) ∧
+    (∃ s', xlval2Merged (.int 9) ⟨.var 0, []⟩ ⟨.tmp 0, []⟩ s = .ok (⟨.var 0, []⟩, s') ∧ s'.st.vars.map (·.val) = [.int 9]) := by
+  refine ⟨⟨by simp, by simp⟩, ⟨_, rfl, rfl, rfl⟩, ⟨_, rfl, rfl⟩⟩
+
+/-- **A built-in call changes nothing but pool slots**, for every built-in name, every argument list (any length, any
+argument expressions of the extended language: variables, constants, `t.at(i)`, `u@n`, operator results, function
+results, nested built-ins), every function table and fuel: from a state with the flag invariant and an empty log, a
+variable slot / constant node outside the static footprint OF THE ARGUMENTS is untouched as a whole cell — the built-in
+itself contributes nothing to the footprint (`fpE … (.bi name args)` = the arguments' footprints). -/
+theorem builtin_call_frame (F : List XFun) (fuel : Nat) (name : String) (args : List XExpr) (s s' : XS) (x : XLoc)
+    (hinv : FlagInvX s) (hlog : s.log = []) (h : evalX F (fuel + 1) (.bi name args) s = .ok (x, s'))
+    (r : Loc) (hr : NonTmp r) (hn : ∀ a ∈ args, r ∉ fpE F fuel a) :
+    s'.st.root? r = s.st.root? r ∧ FlagInvX s' := by
+  refine ⟨evalX_frame_static F (fuel + 1) (.bi name args) s s' x hinv hlog h r hr ?_,
+          flagInvX_preserved_expr F (fuel + 1) (.bi name args) s s' x hinv h⟩
+  simp only [fpE]
+  intro hm
+  obtain ⟨l, hl, hrl⟩ := List.mem_flatten.mp hm
+  obtain ⟨a, ha, rfl⟩ := List.mem_map.mp hl
+  exact hn a ha hrl
+
+/-- non-vacuity through the whole evaluator: `max(x0, c0 + c1)` with x0 = 3, the literals 4 and 1: the temporary of
+`c0 + c1` receives 5, x0 and both constant nodes keep their cells; `max(c0 + c1, x0)` likewise. -/
+example :
+    let s : XS := { st := { vars := [⟨.int 3, true⟩], csts := [⟨.int 4, true⟩, ⟨.int 1, true⟩], pool := [], wm := 0 } }
+    FlagInvX s ∧
+    (∃ s', evalX [] 4 (.bi "max" [.var 0, .bin .add (.cst 0) (.cst 1)]) s = .ok (⟨.tmp 0, []⟩, s') ∧
+       s'.st.vars.map (·.val) = [.int 3] ∧ s'.st.csts.map (·.val) = [.int 4, .int 1] ∧ s'.st.pool.map (·.val) = [.int 5]) ∧
+    (∃ s', evalX [] 4 (.bi "max" [.bin .add (.cst 0) (.cst 1), .var 0]) s = .ok (⟨.tmp 0, []⟩, s') ∧
+       s'.st.vars.map (·.val) = [.int 3] ∧ s'.st.pool.map (·.val) = [.int 5]) := by
+  refine ⟨⟨by simp, by simp⟩, ⟨_, rfl, rfl, rfl, rfl⟩, ⟨_, rfl, rfl, rfl⟩⟩
 
 end Extended
 
